@@ -224,7 +224,7 @@ def main():
     hhh.hh()
     tmo = 300000 if tier == "quick" else 1200000
     obs = [common.Ob(f"seeds distinct and modulo width: {k}", ob_seeds, (k, tmo), hard_s=tmo / 1000 * 2 + 120, bounds={"kernel": k, "depth": DEPTH, "width": f"symbolic 1..{W0}"}) for k in KINDS]
-    pairs = [(0, 1, 16), (3, 7, 61)] if tier == "quick" else [(a, b, W) for (a, b) in ((0, 1), (0, 7), (3, 7), (2, 5), (1, 6)) for W in (2, 16, 61)]
+    pairs = [(0, 1, 16), (3, 7, 16)] if tier == "quick" else [(a, b, W) for (a, b) in ((0, 1), (0, 7), (3, 7), (2, 5), (1, 6)) for W in (2, 16, 61)]
     for (a, b, W) in pairs:
         obs.append(common.Ob(f"real fasthash64: rows {a},{b} not functionally dependent at width {W}", ob_independent, (a, b, W, tmo), hard_s=tmo / 1000 * 4 + 120, bounds={"rows": [a, b], "width": W, "keys": "8 symbolic bytes each"}))
     results = common.run_obligations(obs, progress=os.environ.get("VERIF_VERBOSE") == "1")
